@@ -388,6 +388,14 @@ _S3["C18"] = ("SESSION 3: spline-transformer Coupling (both directions) and Mask
               "TriangularAffine's _to_triangular / ..._and_log_det are generated as expression arrays (Gen/SplineAst.lean, Gen/TriAst.lean) and coupling_spline_grad_finite, maf_spline_grad_finite, spline_params_grad_finite, "
               "mvn_grad_finite prove finite values and finite adjoints with respect to input, condition and every weight / bias / leaf for every parameter value and input, with no finiteness-of-value hypothesis. "
               "Still oracle-only: the MAF inverse scan, BNAF, whole factories.")
+_S3["C03"] += (" AbstractTransformed.merge_transforms and the shape / cond_shape properties are regenerated (py2meth.py, sheet targets_merge.py -> Gen/MergeGen.lean) and proved, for every nesting depth, to be the hand model and to "
+               "preserve _log_prob, _sample and _sample_and_log_prob (gen_merge_transforms_model, gen_merge_transforms_sem); cond_shape is merge_cond_shapes of the two sides, in particular () and None give () "
+               "(gen_transformed_cond_shape_scalar_instance); triangular_spline_flow's make_layer is regenerated and its change-of-variables theorem restated on it (gen_tri_spline_flow_change_of_variables).")
+_S3["C08"] = ("SESSION 3: Chain.__getitem__ / __iter__ / __len__ / merge_chains and AbstractTransformed.merge_transforms are regenerated (Gen/MergeGen.lean) and proved: merge_chains is the full flattening with the four methods unchanged "
+              "(gen_merge_chains_sem), chain[i] is the child for positive and negative i and raises IndexError / TypeError as Python does (gen_chain_getitem_int), chain[a:b] is the generated Chain of the Python-sliced list "
+              "(gen_chain_getitem_sem), merge_transforms preserves all three distribution methods (gen_merge_transforms_sem).")
+_S3["C01"] += (" triangular_spline_flow.make_layer / get_splines (py2flows.py), BlockAutoregressiveNetwork.__init__ and _UnconditionalPlanar.__init__ are regenerated as well (gen_tri_spline_make_layer_eq, gen_tri_spline_flow_lawful, "
+               "gen_bnaf_init_eq_model, gen_bnaf_init_ok); the audit of the theorem statements is AUDIT.md (DESIGN.md §14).")
 for _k, _v in _S3.items():
     _t = CLAIMED[_k]
     CLAIMED[_k] = (_t[0], _t[1] + " " + _v, _t[2], _t[3])
